@@ -30,14 +30,14 @@ RuleClauses(xs, ws, order) ==
 
 Judge(e) ==
   LET n == e.act.name IN
-  CASE n = "CvKnotRemove"     -> KnotRemoveClauses(AsC(e.c), e.act.nodes, e.act.tol, e.cls, AsC(e.d))
-    [] n = "CvDegreeDecrease" -> DegreeDecreaseClauses(AsC(e.c), e.act.times, e.act.tol, e.cls, AsC(e.d))
-    [] n = "CvSetKnotvector"  -> SetKnotvectorClauses(AsC(e.c), e.act.kv, e.cls, AsC(e.d))
-    [] n = "CvJoin"           -> JoinClauses(AsC(e.c), AsC(e.b), e.cls, AsC(e.d))
-    [] n = "CvArith"          -> ArithClauses(e.act.op, AsC(e.c), AsC(e.b), e.cls, AsC(e.d))
-    [] n = "CvScalar"         -> ScalarClauses(e.act.op, e.act.s, AsC(e.c), e.cls, AsC(e.d))
-    [] n = "CvClean"          -> Fails({<<"same_function", SameFunction(AsC(e.d), AsC(e.c))>>})
-    [] n = "SameFunction"     -> Fails({<<"same_function", SameFunction(AsC(e.d), AsC(e.c))>>})
+  CASE n = "CvKnotRemove"     -> KnotRemoveClauses(AsC(e.c), e.act.nodes, e.act.tol, e.cls, AsC(e.d), e.dv)
+    [] n = "CvDegreeDecrease" -> DegreeDecreaseClauses(AsC(e.c), e.act.times, e.act.tol, e.cls, AsC(e.d), e.dv)
+    [] n = "CvSetKnotvector"  -> SetKnotvectorClauses(AsC(e.c), e.act.kv, e.cls, AsC(e.d), e.dv)
+    [] n = "CvJoin"           -> JoinClauses(AsC(e.c), AsC(e.b), e.cls, AsC(e.d), e.dv)
+    [] n = "CvArith"          -> ArithClauses(e.act.op, AsC(e.c), AsC(e.b), e.cls, AsC(e.d), e.dv)
+    [] n = "CvScalar"         -> ScalarClauses(e.act.op, e.act.s, AsC(e.c), e.cls, AsC(e.d), e.dv)
+    [] n = "CvClean"          -> Fails({<<"same_function", ConsistentCurve(AsC(e.d)) /\
+                                     ObservedEquals(AsC(e.c), e.dv, CommonBreaks(e.c.U, e.d.U), Deg(e.c.U) + Deg(e.d.U))>>})
     [] n = "CvFitCurve"       -> FitCurveClauses(AsC(e.c), e.act.kv, e.act.nodes, AsC(e.d), e.act.err)
     [] n = "CvFitPoints"      -> FitPointsClauses(e.act.kv, e.act.weights, e.act.nodes, e.act.data, AsC(e.d))
     [] n = "Rule"             -> RuleClauses(e.act.xs, e.act.ws, e.act.order)
